@@ -284,7 +284,8 @@ class Engine:
                 return x
             if isinstance(x, SymInt) and isinstance(y, SymInt) and x.e.eq(y.e):
                 return x
-            return mk_int(z3.If(c, zi(x), zi(y)))
+            wx, wy = width_of(x), width_of(y)
+            return mk_int(z3.If(c, zi(x), zi(y)), max(wx, wy) if wx is not None and wy is not None else None)
         if isinstance(x, EnumVal) and isinstance(y, EnumVal) and x.cls is y.cls:
             v = self.ite(c, x.v, y.v)
             if v is NOTSET:
@@ -369,6 +370,8 @@ class Engine:
         if isinstance(v, EnumVal):
             return self.check_byte(v.v)
         if isinstance(v, SymInt):
+            if v.w is not None and v.w <= 8:
+                return
             self.throw_if(SymBool(z3.Or(v.e < 0, v.e > 255)), "ValueError", "byte must be in range(0, 256)")
             return
         self.throw("TypeError", "an integer is required")
@@ -940,13 +943,23 @@ class Engine:
         return self.load_name(e.id)
 
     def e_JoinedStr(self, e):
+        parts = []
+        concrete = True
         for part in e.values:
             if isinstance(part, ast.FormattedValue):
                 try:
-                    self.ev(part.value)
+                    v = self.ev(part.value)
                 except Unsupported:
-                    pass
-        return OPAQUE
+                    v = OPAQUE
+                if concrete and isinstance(v, (int, str)) and not isinstance(v, bool) and part.conversion == -1 and part.format_spec is None:
+                    parts.append(str(v))
+                else:
+                    concrete = False
+            elif isinstance(part, ast.Constant):
+                parts.append(str(part.value))
+            else:
+                concrete = False
+        return "".join(parts) if concrete else OPAQUE
 
     def e_FormattedValue(self, e):
         self.ev(e.value)
@@ -1299,6 +1312,13 @@ class Engine:
                     return self.mk_bytes(a.items * n, a.mutable, a.kind)
                 return a * n
         if isinstance(op, ast.Mod) and isinstance(a, (str, OpaqueStr)):
+            if isinstance(a, str):
+                bb = b if isinstance(b, tuple) else (b,)
+                if all(isinstance(x, (int, str)) for x in bb):
+                    try:
+                        return a % b
+                    except (TypeError, ValueError):
+                        self.throw("TypeError", "bad string formatting operands")
             return OPAQUE
         if isinstance(op, ast.BitOr) and (isinstance(a, (Cls, Native)) or a is None):
             return None   # typing unions in annotations evaluated at run time
@@ -1358,7 +1378,28 @@ class Engine:
         if isinstance(a, (int, bool)) and not isinstance(b, (int, bool)):
             a, b = b, a
         x = zi(a)
-        self.require(mk_bool(x >= 0), "bit operation on a possibly negative value")
+        wa = width_of(a)
+        if wa is None:
+            self.require(mk_bool(x >= 0), "bit operation on a possibly negative value")
+        if isinstance(b, (int, bool)) and wa is not None and wa <= 16 and int(b) >= 0:
+            # value known to lie in [0, 2^wa): peel bits from the top with comparisons only (linear, no div/mod)
+            m = int(b)
+            low = (m & -m).bit_length() - 1 if m else wa       # lowest set bit of the mask
+            r = x
+            conj = z3.IntVal(0)
+            for k in range(wa - 1, -1, -1):
+                if k < low:
+                    break
+                bit = r >= (1 << k)
+                if (m >> k) & 1:
+                    conj = conj + z3.If(bit, 1 << k, 0)
+                r = r - z3.If(bit, 1 << k, 0)
+            hi_part = (m >> wa) << wa          # mask bits above the value's width
+            if isinstance(op, ast.BitAnd):
+                return mk_int(z3.simplify(conj), wa)
+            if isinstance(op, ast.BitXor):
+                return mk_int(z3.simplify(x + m - 2 * conj), max(wa, m.bit_length()))
+            return mk_int(z3.simplify(x + m - conj), max(wa, m.bit_length()))
         if isinstance(b, (int, bool)):
             m = int(b)
             if m < 0:
@@ -1477,8 +1518,8 @@ class Engine:
             if isinstance(v, EnumVal):
                 v = v.v
             if isinstance(v, (bool, SymBool)):
-                v = mk_int(zi(v))
-            o.items[i] = self.merged(v, o.items[i])
+                v = mk_int(zi(v), 1)
+            o.items[i] = self.merged(as_byte(v), o.items[i])
             return
         if isinstance(o, PList):
             i = self.index_of(idx, len(o.items))
@@ -1499,6 +1540,7 @@ class Engine:
                 src = self.iterate(v)
                 for x in src:
                     self.check_byte(x)
+                src = [as_byte(x) for x in src]
             if len(src) == hi - lo:
                 for k, x in enumerate(src):
                     o.items[lo + k] = self.merged(x, o.items[lo + k])
